@@ -19,7 +19,7 @@ func init() {
 	register(&Prop{
 		ID: "C20", Level: "exploration",
 		Rule: "one case = a router with LoggerWithHandler(capturing handler) over all handler kinds, a drawn router-wide client-IP resolver (none, succeeding, failing) and routes with a drawn per-route resolver (inherit, other succeeding, failing, nil), plus a twin router without the logger; 8-20 requests per run, each with a scripted handler behaviour from {explicit status at the class boundaries 200/299/300/399/400/499/500/599, 201 with a Location header, informational only, implicit 200 by a body write, no write at all, redirect with Location, 3xx without Location, write on a failing connection, panic with a drawn value} and a drawn handler kind (route, no-route, no-method, built-in redirect, options). Oracle: exactly one record per returning handler, emitted after the handler returned; status attribute = the status the recorder reports (first final status forwarded, 200 if none); method, host, path of the request; message = resolved client IP / remote address when no resolver is configured / 'unknown' when resolution fails, using the route's resolver in route handlers and the router-wide one elsewhere; level INFO/DEBUG/WARN/ERROR per status class, location attribute exactly for 3xx with a Location header; the bytes and headers on the simulated connection equal those of the twin router; a panic passes through as the identical value and emits no record. latency is ignored. Non-trivial: the run covered at least 3 status classes and 2 handler kinds; distinct = hash of (configuration, request scripts).",
-		Run:  runC20, Quick: 8000, Thorough: 800000,
+		Run:  runC20, Quick: 64000, Thorough: 9600000,
 		Real: []string{"Logger middleware (logger.go)", "Context.ClientIP / RemoteIP", "recorder ResponseWriter", "ServeHTTP dispatch", "option processing (WithClientIPResolver)"},
 		Stub: []string{"slog sink: capturing handler", "client-IP resolvers: scripted", "net/http connection: simulated connection", "wall clock: real but unobserved (latency attribute excluded)"},
 	})
